@@ -29,26 +29,28 @@ where
         // and write that to the fn write_xml(&self, writer: &mut W) -> WriterResult<()> {
 
         writeln!(writer, "Rc::new(restrictions::Restrictions {{")?;
-        if let Some(min_inclusive) = &self.min_inclusive {
-            writeln!(writer, "   min_inclusive: Some({min_inclusive}), ")?;
+        // the facet values are schema text: only values that are numbers of the field's type are
+        // written (as numbers), anything else can not be represented and is left out
+        let bounds = [
+            ("min_inclusive", &self.min_inclusive),
+            ("max_inclusive", &self.max_inclusive),
+            ("min_exclusive", &self.min_exclusive),
+            ("max_exclusive", &self.max_exclusive),
+        ];
+        for (name, value) in bounds {
+            if let Some(value) = value.as_ref().and_then(|v| v.trim().parse::<i32>().ok()) {
+                writeln!(writer, "   {name}: Some({value}), ")?;
+            }
         }
-        if let Some(max_inclusive) = &self.max_inclusive {
-            writeln!(writer, "   max_inclusive: Some({max_inclusive}), ")?;
-        }
-        if let Some(min_exclusive) = &self.min_exclusive {
-            writeln!(writer, "   min_exclusive: Some({min_exclusive}), ")?;
-        }
-        if let Some(max_exclusive) = &self.max_exclusive {
-            writeln!(writer, "   max_exclusive: Some({max_exclusive}), ")?;
-        }
-        if let Some(length) = &self.length {
-            writeln!(writer, "   length: Some({length}), ")?;
-        }
-        if let Some(min_length) = &self.min_length {
-            writeln!(writer, "   min_length: Some({min_length}), ")?;
-        }
-        if let Some(max_length) = &self.max_length {
-            writeln!(writer, "   max_length: Some({max_length}), ")?;
+        let lengths = [
+            ("length", &self.length),
+            ("min_length", &self.min_length),
+            ("max_length", &self.max_length),
+        ];
+        for (name, value) in lengths {
+            if let Some(value) = value.as_ref().and_then(|v| v.trim().parse::<usize>().ok()) {
+                writeln!(writer, "   {name}: Some({value}), ")?;
+            }
         }
 
         // add the enumeration
